@@ -495,6 +495,50 @@ pub fn c07(tier: Tier) -> i32 {
         }
         rep.merge(&c);
     });
+    // (4) a combinator of ONE pattern, for every expression of a program space, over the four
+    // construction routes: it matches what the pattern wrapped in single-branch braces matches (the
+    // combinator is such a wrapper; where the braces do not build - rooted patterns - the pattern
+    // itself, unless it nests a tree wildcard). The routes rebuild the token tree (fold_map /
+    // compose), which `Glob::new` never does.
+    {
+        let sopts = SpaceOpts { shape: tier.pick(3, 4), subst_single: 2, subst_pairs: 0, reduced: 0, corpus: true, letter_canonical: true, position: tier.pick(1, 2), position_full: tier.pick(0, 1), adjacent: tier == Tier::Thorough };
+        for_each_glob(&rep, &sopts, &|e, g, c| {
+            if e.pass == "partition" {
+                return;
+            }
+            let wrapped = format!("{{{}}}", e.text);
+            let reference: String = if model::build_ok(&wrapped).is_some() {
+                wrapped
+            }
+            else if !astops::nested_tree(&e.ast, false) {
+                e.text.clone()
+            }
+            else {
+                bump(c, "single_any_skipped", 1);
+                return;
+            };
+            let Some(m) = member(reference.clone()) else { return };
+            let _ = g;
+            let combo = [reference.as_str()];
+            let pats = [e.text.as_str()];
+            let routes: &[&'static str] = if tier == Tier::Thorough { &["text", "compiled", "nested", "owned"] } else { &["text", "owned"] };
+            for route in routes.iter().copied() {
+                let Some(any) = any_by_route(&pats, route) else {
+                    bump(c, "any_rejected", 1);
+                    continue;
+                };
+                bump(c, "single_any_checked", 1);
+                // identical program text: identical language, nothing to explore
+                let body = |t: &str| t.replace("(?:", "(").to_string();
+                if body(any.verif_program_text()) == body(m.dfa.pattern.as_str()) {
+                    bump(c, "single_any_same_program", 1);
+                    continue;
+                }
+                let Ok(a_dfa) = model::dfa_of_any(&any) else { continue };
+                check_any(&rep, c, route, &combo, &any, &a_dfa, std::slice::from_ref(&m));
+            }
+        });
+    }
     finish_mc(&rep, &opts, "for every built expression: every alternation-substitution family, every repetition-unrolling family (equality for bounded, inclusion up to lower+3 for open bounds), every wrapping of the whole and of every top-level sub-sequence, and any() of pool members over 4 construction routes; all reachable tuples of the product of the implementation's own DFAs")
 }
 
